@@ -23,6 +23,8 @@ Objs1 == {Node("obj", "Point", <<x, y>>) : x \in Reps, y \in {Atom("str", "a"), 
          \cup {Node("obj", "Empty", <<>>)}
          \* a subclass that adds a field to a Serializable base class: all three fields belong to the value
          \cup {Node("obj", "Player", <<x, y, z>>) : x \in {Atom("int", "128"), Atom("none", "")}, y \in {Atom("str", "a"), Atom("str", "multibyte")}, z \in {Atom("int", "-1"), Atom("float", "0.1")}}
+         \* a class with a read-only computed attribute next to its two fields
+         \cup {Node("obj", "Gauge", <<x, y>>) : x \in {Atom("int", "-1"), Atom("none", "")}, y \in {Atom("int", "128"), Atom("str", "a")}}
          \* fields annotated as containers: None, the empty container and a filled one are three different values, in every position
          \cup {Node("obj", "Bag", <<x, y>>) : x \in {Atom("none", ""), Node("list", "", <<>>), Node("list", "", <<Atom("int", "1")>>)},
                                               y \in {Atom("none", ""), Node("dict", "", <<>>), Node("dict", "", <<Node("kv", "", <<Atom("str", "a"), Atom("int", "1")>>)>>)}}
